@@ -161,6 +161,91 @@ def distinctAux : Option Rec → List Rec → List Rec
 /-- `_tsql_distinct` -/
 def tsqlDistinct (rs : List Rec) : List Rec := distinctAux none rs
 
+/-! ### can the filter be joined with the relation?  (`tsql._plan_joins`, `_pivot_relations`)
+
+What `tsql.select('* from T where c', db)` needs before it looks at any row: the relations the
+columns of `c` resolve to (parameter `rs`, C11's subject), and a way to join them with `T` over
+shared key names.  This part is modelled (not a parameter): it decides the documented fallback
+"use all rows if the filter and table cannot be joined". -/
+
+/-- `Field.is_key` -/
+def Field.isKey (f : Field) : Bool :=
+  f.flags.any (fun fl => fl == ":key" || fl == ":primary" || ":foreign".isPrefixOf fl)
+
+/-- `keymap[rel]`: names of the key fields (none for an undeclared relation) -/
+def keysOf (ss : Schema) (n : Name) : List Name :=
+  match ss.lookup n with
+  | some fs => (fs.filter Field.isKey).map (·.name)
+  | none => []
+
+def intersects (a b : List Name) : Bool := a.any (fun x => b.contains x)
+
+/-- two relations can be hash-joined directly: they share a key name -/
+def sharesKey (ss : Schema) (a b : Name) : Bool := intersects (keysOf ss a) (keysOf ss b)
+
+/-- connected components of the key-name graph in which the keys of one relation form a clique -/
+def mergeComp (comps : List (List Name)) (keys : List Name) : List (List Name) :=
+  if keys.isEmpty then comps
+  else ((comps.filter (fun c => intersects keys c)).flatten ++ keys)
+        :: comps.filter (fun c => !intersects keys c)
+
+def components (ss : Schema) (rels : List Name) : List (List Name) :=
+  rels.foldl (fun cs r => mergeComp cs (keysOf ss r)) []
+
+/-- `_pivot_relations`: while the key names of the requested relations fall into several components,
+add the first relation of the schema (not yet used, more than one key) that touches more than one of
+them; `none` = `TSQLError('could not find relation to join')`. -/
+def pivotLoop (ss : Schema) : Nat → List Name → List Name → Option (List Name)
+  | 0, _, _ => none
+  | fuel + 1, relset, pivots =>
+    let comps := components ss (relset ++ pivots)
+    if comps.length ≤ 1 then some pivots
+    else
+      match ss.find? (fun r => !(relset ++ pivots).contains r.1 && (keysOf ss r.1).length > 1
+                        && (comps.filter (fun c => intersects c (keysOf ss r.1))).length > 1) with
+      | none => none
+      | some r => pivotLoop ss fuel relset (pivots ++ [r.1])
+
+/-- the ordering loop of `_plan_joins` as a reachability computation: start with `T`, repeatedly
+take the relations that share a key with one already taken -/
+def reachLoop (ss : Schema) (J : List Name) : Nat → List Name → List Name
+  | 0, reach => reach
+  | fuel + 1, reach =>
+    reachLoop ss J fuel
+      (reach ++ J.filter (fun n => !reach.contains n && reach.any (fun m => sharesKey ss m n)))
+
+/-- the relations joined for `* from t where c` when the columns of `c` belong to `rs`;
+`none` = `TSQLError` (no pivot relation, or some relation cannot be reached: 'infinite loop detected') -/
+def joinPlan (ss : Schema) (t : Name) (rs : List Name) : Option (List Name) :=
+  let relset := t :: rs
+  match pivotLoop ss (ss.length + 1) relset [] with
+  | none => none
+  | some pivots =>
+    let J := relset ++ pivots
+    let reach := reachLoop ss J J.length [t]
+    if J.all (fun n => reach.contains n) then some J else none
+
+/-- what the harness reports about the filter for one table (C11's part of the query) -/
+inductive Filt where
+  | unresolved                 -- a column is undefined or the literal has the wrong type: `TSQLError`
+  | raise (e : Err)            -- the text does not parse / unknown qualified column: escapes
+  | rels (rs : List Name) (ks : List Nat) (late : Option Err)
+      -- the relations of the condition's columns; per row of T the number of satisfying joined
+      -- tuples (meaningful when a join plan exists); an exception raised while joining (a joined
+      -- relation has no file)
+
+/-- the outcome of the select for table `t`, with the joinability decided by the model -/
+def planSel (ss : Schema) (t : Name) : Filt → Sel
+  | .unresolved => .tsqlError
+  | .raise e => .raise e
+  | .rels rs ks late =>
+    match joinPlan ss t rs with
+    | none => .tsqlError
+    | some _ =>
+      match late with
+      | some e => .raise e
+      | none => .counts ks
+
 /-! ### one loop for `_mkprof_from_database` and `write_database` -/
 
 /-- `for table in schema: records = …; tsdb.write(dest, table, records, schema[table], gzip=gzip)`.
